@@ -244,9 +244,91 @@ def _legacy_cases():
             res = map_exc(e)
         return (res, [(k, list(v)) for k, v in reversed(g._neighborhood_cache.items())])
 
+    # ---- the SingleGrid mutators: a real SingleGrid whose tables are set to the generated state, real (duck-typed) agents.
+    # Coordinates are inside the grid (outside: Python wraps negative indices / raises IndexError, not in the subset); the
+    # tables are NOT kept mutually consistent (mask / empties random): the translation is compared on arbitrary states.
+    class Ag:
+        def __init__(self, uid, pos):
+            self.unique_id, self.pos = uid, pos
+
+    def gen_space(rng):
+        a = dims(rng)
+        w, h = a["w"], a["h"]
+        cells = [[(rng.randrange(1, 9) if rng.random() < 0.4 else None) for _ in range(h)] for _ in range(w)]
+        allc = [(x, y) for x in range(w) for y in range(h)]
+        rng.shuffle(allc)
+        emp = allc[:rng.randrange(0, len(allc) + 1)]
+        return {"width": w, "height": h, "torus": a["torus"], "_grid": cells, "_empties_built": rng.random() < 0.6,
+                "_empties": emp, "_empty_mask": [[rng.random() < 0.5 for _ in range(h)] for _ in range(w)], "_neighborhood_cache": []}
+
+    def gen_mut(rng):
+        sp = gen_space(rng)
+        a = {"w": sp["width"], "h": sp["height"]}
+        uid = rng.randrange(1, 9)
+        return {"self": sp, "pos": pos(rng, a, 0.0),
+                "agent": {"unique_id": uid, "pos": None if rng.random() < 0.3 else pos(rng, a, 0.0)}}
+
+    def gen_move(rng):
+        """targets also outside the grid (torus_adj wraps / rejects them); the agent stands where its `pos` says, or nowhere"""
+        a = gen_mut(rng)
+        d = {"w": a["self"]["width"], "h": a["self"]["height"]}
+        a["pos"] = pos(rng, d, 0.3)
+        if a["agent"]["pos"] is not None and rng.random() < 0.8:
+            x, y = a["agent"]["pos"]
+            a["self"]["_grid"][x][y] = a["agent"]["unique_id"]
+        return a
+
+    def space(a):
+        import numpy as np
+        sp = a["self"]
+        g = SingleGrid(sp["width"], sp["height"], sp["torus"])
+        objs = {}
+        if "agent" in a:
+            objs[a["agent"]["unique_id"]] = Ag(a["agent"]["unique_id"], a["agent"]["pos"])
+        for x, col in enumerate(sp["_grid"]):
+            for y, c in enumerate(col):
+                g._grid[x][y] = None if c is None else objs.setdefault(c, Ag(c, (x, y)))
+        g._empties_built = sp["_empties_built"]
+        g._empties = set(sp["_empties"])
+        g._empty_mask = np.array(sp["_empty_mask"], dtype=bool).reshape(sp["width"], sp["height"])
+        return g, objs
+
+    def after(a, g, ag):
+        """the tables the real call left behind, in the translation's representation (a set: old members in their old order,
+        then the new ones)"""
+        old = a["self"]["_empties"]
+        emp = [e for e in old if e in g._empties] + sorted(e for e in g._empties if e not in old)
+        return ([[None if c is None else c.unique_id for c in col] for col in g._grid], emp,
+                [[bool(v) for v in row] for row in g._empty_mask], ag.pos)
+
+    def call_mut(name):
+        def call(a):
+            import warnings
+            g, objs = space(a)
+            ag = objs[a["agent"]["unique_id"]]
+            with warnings.catch_warnings():
+                warnings.simplefilter("ignore")
+                try:
+                    if name == "_Grid.move_agent":
+                        from mesa.space import _Grid
+                        res = _Grid.move_agent(g, ag, a["pos"])
+                    else:
+                        res = getattr(g, name)(ag, a["pos"]) if name != "remove_agent" else g.remove_agent(ag)
+                except Exception as e:       # noqa: BLE001
+                    res = map_exc(e)
+            return (res, *after(a, g, ag)) if name != "remove_agent" else after(a, g, ag)
+        return call
+
     return {"_Grid.out_of_bounds": (gen_pos, lambda a: grid(a).out_of_bounds(a["pos"])),
             "_Grid.torus_adj": (gen_pos, lambda a: tuple(grid(a).torus_adj(a["pos"]))),
-            "_Grid.get_neighborhood": (gen_nb, call_nb)}
+            "_Grid.get_neighborhood": (gen_nb, call_nb),
+            "_Grid.default_val": (lambda rng: {}, lambda a: SingleGrid.default_val()),
+            "_Grid.is_cell_empty": (lambda rng: {k: v for k, v in gen_mut(rng).items() if k != "agent"},
+                                    lambda a: bool(space(a)[0].is_cell_empty(a["pos"]))),
+            "SingleGrid.place_agent": (gen_mut, call_mut("place_agent")),
+            "_Grid.move_agent": (gen_move, call_mut("_Grid.move_agent")),
+            "SingleGrid.move_agent": (gen_move, call_mut("move_agent")),
+            "SingleGrid.remove_agent": (lambda rng: {k: v for k, v in gen_mut(rng).items() if k != "pos"}, call_mut("remove_agent"))}
 
 
 # ------------------------------------------------------------------ C14: eventlist.py
